@@ -230,7 +230,7 @@ func (c *Ctx) Finish(rule string) {
 		h := sha256.Sum256([]byte(k))
 		rp := filepath.Join(c.Dir, "replay", fmt.Sprintf("%s-%s.json", c.ID, hex.EncodeToString(h[:6])))
 		b, _ := json.MarshalIndent(map[string]interface{}{
-			"property": c.ID, "key": k, "what": v.what, "replay": v.replay, "occurrences": v.count, "tier": c.Tier,
+			"property": c.ID, "key": k, "what": v.what, "replay": v.replay, "occurrences": v.count, "tier": c.Tier, "part": os.Getenv("VERIF_PART"),
 		}, "", " ")
 		_ = os.MkdirAll(filepath.Dir(rp), 0o755)
 		_ = os.WriteFile(rp, b, 0o644)
@@ -265,6 +265,35 @@ func (c *Ctx) Finish(rule string) {
 		cov["exhaustive"] = false
 	}
 	cov["known_findings_matched"] = len(printedKnown)
+	// a check made of several harness binaries: the parts that ran before this one hand their evidence over
+	otherViolations := 0
+	for _, f := range strings.Split(os.Getenv("VERIF_MERGE_EVIDENCE"), ":") {
+		if f == "" {
+			continue
+		}
+		b, err := os.ReadFile(f)
+		var pe struct {
+			Coverage   map[string]interface{} `json:"coverage"`
+			Assume     []string               `json:"assumptions"`
+			Wall       float64                `json:"wall_s"`
+			Violations int                    `json:"violations"`
+			Level      string                 `json:"level"`
+		}
+		name := strings.TrimSuffix(filepath.Base(f), ".json")
+		if err != nil || json.Unmarshal(b, &pe) != nil {
+			fmt.Println("ENGINE-ERROR part", name, "left no evidence")
+			os.Exit(2)
+		}
+		pe.Coverage["wall_s"] = pe.Wall
+		pe.Coverage["violations"] = pe.Violations
+		pe.Coverage["level"] = pe.Level
+		pe.Coverage["assumptions"] = pe.Assume
+		cov["part_"+name] = pe.Coverage
+		if ex, ok := pe.Coverage["exhaustive"].(bool); ok && !ex {
+			cov["exhaustive"] = false
+		}
+		otherViolations += pe.Violations
+	}
 	ev := map[string]interface{}{
 		"property_id": c.ID,
 		"tier":        c.Tier,
@@ -273,7 +302,7 @@ func (c *Ctx) Finish(rule string) {
 		"coverage":    cov,
 		"assumptions": c.Assume,
 		"wall_s":      time.Since(c.start).Seconds(),
-		"violations":  unknown,
+		"violations":  unknown + otherViolations,
 	}
 	if c.Assume == nil {
 		ev["assumptions"] = []string{}
@@ -285,6 +314,9 @@ func (c *Ctx) Finish(rule string) {
 	}
 	if c.ReplayOnly == "" {
 		p := filepath.Join(c.Dir, "evidence", c.ID+".json")
+		if o := os.Getenv("VERIF_EVIDENCE_OUT"); o != "" {
+			p = o
+		}
 		_ = os.MkdirAll(filepath.Dir(p), 0o755)
 		if err := os.WriteFile(p, b, 0o644); err != nil {
 			fmt.Println("ENGINE-ERROR evidence write:", err)
